@@ -397,6 +397,9 @@ func OracleGate(tr *Trace, kind string) ([]Finding, int, bool) {
 				cands := expectedDeliveries(sp, sg)
 				absorbed := map[uint64]bool{}
 				for _, x := range sg.Items {
+					if sg.Rollback && x.Seq <= sg.FailedSeq {
+						continue // replayed after a rollback: the catch-up swallows it, nothing is reported for it
+					}
 					if x.Kind == cbsim.KSeqnoAdv || x.Kind == cbsim.KSystem {
 						cands = append(cands, x)
 						absorbed[x.Seq] = true
